@@ -26,7 +26,10 @@ const (
 	c13OuterVar = "zz_outer"
 )
 
-var c13Vias = []string{"", "clone", "opspec", "action", "action/steps", "forEach", "forEach/forEach"}
+var c13Vias = []string{"", "clone", "opspec", "action", "action/steps", "forEach", "forEach/forEach",
+	// the OpSpec / ActionSpec holding the operation executed as it is (not its clone), handed to the
+	// executor by value and by pointer (both implement Action)
+	"opspec/value", "opspec/pointer", "action/value", "action/pointer"}
 
 func c13ViaOK(via string) bool {
 	for _, v := range c13Vias {
@@ -126,6 +129,7 @@ func c13ForEach(variable, item string, body pipeline.OpSpec) *pipeline.ForEachOp
 
 // c13ExecVia runs the operation on the document along the named route.
 func c13ExecVia(gd dom.ContainerBuilder, a pipeline.Action, via string) (tag string, txt string) {
+	c13Decoy(a) // first an operation of the same kind that fails part-way, elsewhere (c13_more.go)
 	if via == "" {
 		return c13Exec(gd, a)
 	}
@@ -152,6 +156,14 @@ func c13ExecVia(gd dom.ContainerBuilder, a pipeline.Action, via string) (tag str
 		run = cloned(func(ctx pipeline.ActionContext) pipeline.Action {
 			return pipeline.ActionSpec{Children: pipeline.ChildActions{"step": pipeline.ActionSpec{Operations: spec}}}.CloneWith(ctx)
 		})
+	case "opspec/value":
+		run = spec
+	case "opspec/pointer":
+		run = &spec
+	case "action/value":
+		run = pipeline.ActionSpec{Operations: spec}
+	case "action/pointer":
+		run = &pipeline.ActionSpec{Operations: spec}
 	case "forEach":
 		run = c13ForEach(c13ItemVar, "i1", spec)
 	case "forEach/forEach":
